@@ -13,6 +13,8 @@ pub mod gen;
 pub(crate) mod h_raw;
 #[cfg(kani)]
 pub(crate) mod h_slru;
+#[cfg(kani)]
+pub(crate) mod h_2q;
 
 /// Concrete-playback tests written by the driver when it replays a solver counterexample.
 #[cfg(all(kani, test))]
